@@ -15,6 +15,7 @@
 #include <iterator>
 #include <string>
 #include <map>
+#include <set>
 #include <unordered_map>
 
 using namespace drv;
@@ -457,6 +458,31 @@ static void resync(Slot<C>& s)
         s.m.ids.push_back((*s.v)[i].id);
 }
 
+// positions / lengths the alphabet enumerates: every value for the small capacities, a sparse set
+// around powers of two and the ends for the large ones (the alphabet would explode otherwise)
+static std::vector<std::size_t> pts(std::size_t cap, std::size_t upto)
+{
+    std::vector<std::size_t> r;
+    if (cap <= 8)
+    {
+        for (std::size_t k = 0; k <= upto; ++k)
+            r.push_back(k);
+        return r;
+    }
+    std::set<std::size_t> s{ 0, 1, 2, 3, 15, 16, 17, 31, 32, 33, 34, 35, 63, 64, 65, 66, 127, 128, 129, 255, 256, 257,
+                             upto / 2, upto };
+    if (upto >= 3)
+    {
+        s.insert(upto - 1);
+        s.insert(upto - 2);
+        s.insert(upto - 3);
+    }
+    for (std::size_t k : s)
+        if (k <= upto)
+            r.push_back(k);
+    return r;
+}
+
 template <bool C>
 static std::vector<Op<C>> alphabet(std::size_t cap)
 {
@@ -531,7 +557,7 @@ static std::vector<Op<C>> alphabet(std::size_t cap)
                            }
                        } });
     }
-    for (std::size_t k = 0; k <= cap; ++k)
+    for (std::size_t k : pts(cap, cap))
     {
         std::string nm = "emplace(begin+" + std::to_string(k) + ",v)";
         ops.push_back({ nm, [k, nm](World<C>& w) {
@@ -546,7 +572,7 @@ static std::vector<Op<C>> alphabet(std::size_t cap)
     if constexpr (C)
     {
         // the argument aliases an element of the same container (as std::vector supports)
-        for (std::size_t k = 0; k <= cap; ++k)
+        for (std::size_t k : pts(cap, cap))
             for (int which = 0; which < 2; ++which)
             {
                 std::string nm = "emplace(begin+" + std::to_string(k) + "," + (which ? "self.back()" : "self.front()") + ")";
@@ -575,7 +601,7 @@ static std::vector<Op<C>> alphabet(std::size_t cap)
                                m.ids.push_back(id);
                        } });
     }
-    for (std::size_t k = 0; k <= cap; ++k)
+    for (std::size_t k : pts(cap, cap))
     {
         std::string nm = "erase(begin+" + std::to_string(k) + ")";
         ops.push_back({ nm, [k, nm](World<C>& w) {
@@ -592,7 +618,7 @@ static std::vector<Op<C>> alphabet(std::size_t cap)
                                 [&] { w.P().v->pop_back(); }))
                            m.ids.pop_back();
                    } });
-    for (std::size_t i = 0; i <= cap; ++i)
+    for (std::size_t i : pts(cap, cap))
     {
         std::string nm = "at(" + std::to_string(i) + ")";
         ops.push_back({ nm, [i, nm](World<C>& w) {
@@ -639,8 +665,8 @@ static std::vector<Op<C>> alphabet(std::size_t cap)
     if constexpr (C)
     {
         // range insert at every position, every length 0..cap+1
-        for (std::size_t k = 0; k <= cap; ++k)
-            for (std::size_t L = 0; L <= cap + 1; ++L)
+        for (std::size_t k : pts(cap, cap))
+            for (std::size_t L : pts(cap, cap + 1))
             {
                 std::string nm = "insert(begin+" + std::to_string(k) + ",range" + std::to_string(L) + ")";
                 ops.push_back({ nm, [k, L, nm](World<C>& w) {
@@ -730,7 +756,7 @@ static std::vector<Op<C>> alphabet(std::size_t cap)
                                    resync(w.P());
                                } });
             }
-        for (std::size_t L = 0; L <= cap + 1; ++L)
+        for (std::size_t L : pts(cap, cap + 1))
         {
             std::string nm = "push_back(single-pass-range" + std::to_string(L) + ")";
             ops.push_back({ nm, [L, nm](World<C>& w) {
@@ -783,7 +809,7 @@ static std::vector<Op<C>> alphabet(std::size_t cap)
                                    viol("C07", "failed-range-append-left-unrelated-contents", "insert(end,initializer_list)");
                            }
                        } });
-        for (std::size_t L = 0; L <= cap + 1; ++L)
+        for (std::size_t L : pts(cap, cap + 1))
         {
             std::string nm = "push_back(range" + std::to_string(L) + ")";
             ops.push_back({ nm, [L, nm](World<C>& w) {
